@@ -467,6 +467,32 @@ def _replay_rels(model, rec):
     want = {"rId1": (False, "http://t/a", part), "rId3": (True, "http://t/c", "http://example.com/x")}
     if got != want:
         return {"confirmed": True, "witness_class": "rels-loaded-wrong", "detail": "loaded %r, expected rId1 (internal, present) and rId3 (external) only" % (sorted(got),)}
+    # every arrangement of present (P), dangling (D) and external (E) relationships in items of up to four entries: exactly the P and E
+    # ones are loaded, in particular when dangling ones are neighbours, first or last
+    import itertools
+
+    for n in range(1, 5):
+        for kinds in itertools.product("PDE", repeat=n):
+            rels = CT_Relationships.new()
+            want = {}
+            for i, k in enumerate(kinds):
+                rid = "rId%d" % (i + 1)
+                if k == "P":
+                    rels.add_rel(rid, "http://t/%d" % i, "slides/slide1.xml", False)
+                    want[rid] = (False, "http://t/%d" % i, part)
+                elif k == "D":
+                    rels.add_rel(rid, "http://t/%d" % i, "media/gone%d.bin" % i, False)
+                else:
+                    rels.add_rel(rid, "http://t/%d" % i, "http://example.com/%d" % i, True)
+                    want[rid] = (True, "http://t/%d" % i, "http://example.com/%d" % i)
+            r = _Relationships("/ppt")
+            try:
+                r.load_from_xml("/ppt", rels, parts)
+            except Exception as e:
+                return {"confirmed": True, "witness_class": "dangling-rel-raises", "detail": "load_from_xml of an item with relationships %s (P present, D dangling, E external) raised %r" % ("".join(kinds), e)}
+            got = {k: (v.is_external, v.reltype, v.target_ref if v.is_external else v.target_part) for k, v in r.items()}
+            if got != want:
+                return {"confirmed": True, "witness_class": "rels-loaded-wrong", "detail": "item with relationships %s (P present, D dangling, E external): loaded %s, expected %s" % ("".join(kinds), sorted(got), sorted(want))}
     return {"confirmed": False, "detail": "dangling internal targets skipped, others loaded"}
 
 
@@ -962,7 +988,11 @@ def _native_irregular(tier="quick", seed=0):
                 mem = os.path.join(hold, "withlink", "ppt", "presentation.xml")
                 shutil.move(mem, os.path.join(hold, "presentation.elsewhere"))
                 os.symlink(os.path.join(hold, "presentation.elsewhere"), mem)
-                spellings = [(d + os.sep, "trailing separator"), (os.path.join(d, "ppt", ".."), "through '..'"), (os.path.join(hold, "link"), "symbolic link to the directory"),
+                shutil.copytree(d, os.path.join(hold, "withdirlink"))
+                sub = os.path.join(hold, "withdirlink", "ppt", "slides")
+                shutil.move(sub, os.path.join(hold, "slides.elsewhere"))
+                os.symlink(os.path.join(hold, "slides.elsewhere"), sub)
+                spellings = [(os.path.join(hold, "withdirlink"), "one sub-directory is a symbolic link"), (d + os.sep, "trailing separator"), (os.path.join(d, "ppt", ".."), "through '..'"), (os.path.join(hold, "link"), "symbolic link to the directory"),
                              (os.path.join(hold, "parent", "deck"), "directory under a symbolically linked parent"), (os.path.join(hold, "withlink"), "one member is a symbolic link"),
                              (os.path.relpath(d, hold), "relative path")]
                 os.chdir(hold)
